@@ -1222,6 +1222,7 @@ def run(ctx):
         if found >= 5:
             break
     ctx.cov["oracle_scenarios"] = n_dom
+    found += estimator_table_check(ctx)
     if ctx.broken() and not found:
         extra = [gen_scenario(ctx.rng, ctx.tier, {"domain": True}) for _ in range(ctx.budget(150, 600))]
         for sc in extra:
@@ -1234,7 +1235,106 @@ def run(ctx):
         ctx.cov["oracle_scenarios_extra"] = len(extra)
 
 
+# independent definitions of the documented estimators (never aurel.time.est_functions): name -> (function, defined
+# for complex arrays?).  max/min/percentiles of complex numbers have no agreed meaning and are only checked on reals.
+def _pct(q):
+    def f(a):
+        v = np.sort(np.ravel(a))
+        x = (len(v) - 1) * q / 100.0
+        lo = int(np.floor(x))
+        hi = min(lo + 1, len(v) - 1)
+        return v[lo] + (v[hi] - v[lo]) * (x - lo)
+    return f
+
+
+def _mod(a):
+    a = np.asarray(a)
+    return np.sqrt(a.real ** 2 + a.imag ** 2) if np.iscomplexobj(a) else np.where(a < 0, -a, a)
+
+
+ORACLE_EST = {
+    "max": (lambda a: np.sort(np.ravel(a))[-1], False), "min": (lambda a: np.sort(np.ravel(a))[0], False),
+    "mean": (lambda a: np.sum(a) / a.size, True), "sum": (lambda a: np.sum(a), True),
+    "var": (lambda a: np.sum(_mod(a - np.sum(a) / a.size) ** 2) / a.size, True),
+    "std": (lambda a: np.sqrt(np.sum(_mod(a - np.sum(a) / a.size) ** 2) / a.size), True),
+    "quartile1": (_pct(25), False), "median": (_pct(50), False), "quartile3": (_pct(75), False),
+    "maxabs": (lambda a: np.sort(np.ravel(_mod(a)))[-1], True), "minabs": (lambda a: np.sort(np.ravel(_mod(a)))[0], True),
+    "meanabs": (lambda a: np.sum(_mod(a)) / a.size, True), "sumabs": (lambda a: np.sum(_mod(a)), True),
+    "varabs": (lambda a: np.sum((_mod(a) - np.sum(_mod(a)) / a.size) ** 2) / a.size, True),
+    "stdabs": (lambda a: np.sqrt(np.sum((_mod(a) - np.sum(_mod(a)) / a.size) ** 2) / a.size), True),
+    "quartile1abs": (lambda a: _pct(25)(_mod(a)), True), "medianabs": (lambda a: _pct(50)(_mod(a)), True),
+    "quartile3abs": (lambda a: _pct(75)(_mod(a)), True),
+    "x0y0z0": (lambda a: a[0, 0, 0], True), "x0y0z1": (lambda a: a[0, 0, -1], True), "x0y1z0": (lambda a: a[0, -1, 0], True),
+    "x0y1z1": (lambda a: a[0, -1, -1], True), "x1y0z0": (lambda a: a[-1, 0, 0], True), "x1y0z1": (lambda a: a[-1, 0, -1], True),
+    "x1y1z0": (lambda a: a[-1, -1, 0], True), "x1y1z1": (lambda a: a[-1, -1, -1], True),
+}
+
+
+def estimator_table_check(ctx):
+    """every documented estimator, through over_time, on real AND complex 3-D columns (an input column and a custom
+    variable), against the independent definitions above; the arrays handed in are compared afterwards"""
+    import aurel
+    found = 0
+    names = list(aurel.time.est_functions.keys())
+    missing = [n for n in names if n not in ORACLE_EST]
+    if missing:
+        ctx.notes.append("estimators without an independent definition (not judged): %s" % missing)
+    nprng = np.random.default_rng(ctx.rng.randrange(10 ** 6))
+    N = (5, 4, 6)
+    p = {"Nx": N[0], "Ny": N[1], "Nz": N[2], "xmin": 0.0, "ymin": 0.0, "zmin": 0.0, "dx": 0.5, "dy": 0.5, "dz": 0.5}
+    fd = aurel.FiniteDifference(p, verbose=False)
+    nsteps = 3
+    rho = [nprng.normal(size=N) for _ in range(nsteps)]
+    phi = [nprng.normal(size=N) + 1j * nprng.normal(size=N) for _ in range(nsteps)]
+    tcol = np.array([2.0, 0.0, 1.0])
+    order = np.argsort(tcol, kind="stable")
+    cz = (1.5 - 0.5j) * (1 + fd.x) + 0.25j * fd.y
+    ests = [n for n in names if n in ORACLE_EST]
+    data = {"rho": [a.copy() for a in rho], "phi": [a.copy() for a in phi]}
+    # numpy's percentile refuses complex input, so real and complex columns go through separate calls
+    runs = [({"t": tcol.copy(), "rho": data["rho"]}, [], ests, (("rho", rho),)),
+            ({"t": tcol.copy(), "phi": data["phi"]},
+             [{"cz": lambda rel: (1.5 - 0.5j) * np.asarray(rel["alpha"]) * (1 + fd.x) + 0.25j * fd.y}],
+             [e for e in ests if ORACLE_EST[e][1]], (("phi", phi), ("cz", [cz] * nsteps)))]
+    for table, vars_, es, cols in runs:
+        try:
+            with quiet():
+                out = aurel.over_time(dict(table), fd, vars=vars_, estimates=es, verbose=False)
+        except Exception as ex:  # noqa
+            found += 1 if ctx.violation("over_time raised %r on columns %s with estimates %s" % (ex, [c for c, _ in cols], es),
+                                        {"kind": "input", "check": "estimator_table"}, {"site": "estimates", "what": "raises"}) else 0
+            continue
+        for e in es:
+            f, cplx = ORACLE_EST[e]
+            for col, arrs in cols:
+                key = "%s_%s" % (col, e)
+                ctx.count("estimator_table_evaluations")
+                if key not in out:
+                    found += 1 if ctx.violation("over_time: no column %s" % key, {"kind": "input", "check": "estimator_table", "column": key},
+                                                {"site": "estimates", "estimator": e, "what": "missing"}) else 0
+                    continue
+                for row, j in enumerate(order):
+                    want = f(np.asarray(arrs[j]))
+                    got = out[key][row]
+                    if not np.allclose(got, want, rtol=1e-12, atol=1e-13):
+                        found += 1 if ctx.violation(
+                            "estimate column %s, row %d: %r, the estimator '%s' applied to the stored %s array gives %r"
+                            % (key, row, complex(got), e, "complex" if np.iscomplexobj(arrs[j]) else "real", complex(want)),
+                            {"kind": "input", "check": "estimator_table", "column": key, "row": row},
+                            {"site": "estimates", "estimator": e, "dtype": "complex" if np.iscomplexobj(arrs[j]) else "real"}) else 0
+                        break
+    for col, arrs in (("rho", rho), ("phi", phi)):
+        if any(not np.array_equal(a, b) for a, b in zip(data[col], arrs)):
+            found += 1 if ctx.violation("over_time changed the caller's %s arrays" % col, {"kind": "input", "check": "estimator_table"},
+                                        {"site": "estimates", "what": "input-modified"}) else 0
+    return found
+
+
 def replay(ctx, obj):
+    if obj.get("check") == "estimator_table":
+        n = estimator_table_check(ctx)
+        print("replay: %d violation(s) now" % n)
+        return 1 if n else 0
     sc = obj["scenario"]
     kind = obj.get("what_kind")
     if kind in ("split_est_before_vars", "noop_returns_unsorted", "split_custom_after_reader"):
